@@ -162,3 +162,71 @@ def cobserved(res):
     echoes = clist('(%s, %s, %s)' % (cstr(b['name']), fhex(b['applyProbability']), cbool(b.get('props') is not None))
                    for b in (resp.get('biases') or []))
     return '(ObsOk %s %s)' % (clist(centry(e) for e in resp['result']), echoes)
+
+
+# ---- states as dumped by the harness (Go field names) -------------------------------------------
+
+def calt_d(a):
+    return '(mkA %s %s)' % (cstr(a['Id']), cmap(a.get('Criteria') or {}))
+
+
+def ccrit_d(c):
+    r = c.get('ValuesRange')
+    rng = 'None' if r is None else '(Some (%s, %s))' % (fhex(r['Min']), fhex(r['Max']))
+    return '(mkC %s %s %s)' % (cstr(c['Id']), ctype(c.get('Type', '')), rng)
+
+
+def cwc_d(w):
+    return '(mkWC %s %s)' % (ccrit_d(w['Criterion']), fhex(w['Weight']))
+
+
+def clf_d(f):
+    f = f or {}
+    return '(mkLF %s %s)' % (fhex(f.get('A', 0)), fhex(f.get('B', 0)))
+
+
+def clparams_d(p):
+    """Params of a heuristic: the raw decoded JSON map, or the typed levels object a listener produced"""
+    if not isinstance(p, dict):
+        return clparams({})
+    if 'Thresholds' in p or 'Coefficient' in p:
+        ths = p.get('Thresholds') or []
+        return '(mkLP %s %s %s %s)' % (fhex(p.get('Coefficient', 0)), fhex(p.get('MaxValue', 0)),
+                                       fhex(p.get('MinValue', 0)), clist(cmap(t) for t in ths))
+    return clparams(p)
+
+
+def cmparams_d(method, mp):
+    mp = mp or {}
+    if method == 'weightedSum':
+        return '(P_ws %s)' % clist(cwc_d(w) for w in (mp.get('weightedCriteria') or []))
+    if method == 'owa':
+        return '(P_owa %s)' % clist(cwc_d(w) for w in (mp.get('Weights') or []))
+    if method == 'choquetIntegral':
+        return '(P_choquet %s %s)' % (cmap(mp.get('weights') or {}), clist(ccrit_d(c) for c in (mp.get('criteria') or [])))
+    if method == 'electreIII':
+        ec = mp.get('Criteria') or {}
+        return '(P_electre %s %s)' % (
+            clist('(%s, (mkEC %s %s %s %s))' % (cstr(k), fhex(v['K']), clf_d(v['Q']), clf_d(v['P']), clf_d(v['V']))
+                  for k, v in sorted(ec.items(), key=lambda kv: kv[0].encode())),
+            clf_d(mp.get('DistillationFun')))
+    if method == 'majorityHeuristic':
+        return '(P_majority %s %s %s %s %s)' % (cmap(mp.get('Weights') or {}), cstr(mp.get('CurrentChoice', '')),
+                                                cZ(mp.get('RandomSeed', 0)), cbool(mp.get('RandomAlternativesOrdering', False)),
+                                                cstr(mp.get('DrawResolution', '')))
+    if method == 'aspectEliminationHeuristic':
+        return '(P_aspect %s %s %s %s %s)' % (cstr(mp.get('Function', '')), clparams_d(mp.get('Params')),
+                                              cZ(mp.get('RandomSeed', 0)), cmap(mp.get('Weights') or {}),
+                                              cbool(mp.get('RandomAlternativesOrdering', False)))
+    if method == 'satisfactionHeuristic':
+        return '(P_satisf %s %s %s %s %s)' % (cstr(mp.get('Function', '')), clparams_d(mp.get('Params')),
+                                              cZ(mp.get('RandomSeed', 0)), cstr(mp.get('CurrentChoice', '')),
+                                              cbool(mp.get('RandomAlternativesOrdering', False)))
+    raise ValueError('unknown method ' + method)
+
+
+def cstate_d(method, d):
+    return '(mkState %s %s %s %s)' % (clist(calt_d(a) for a in (d.get('NotConsideredAlternatives') or [])),
+                                      clist(calt_d(a) for a in (d.get('ConsideredAlternatives') or [])),
+                                      clist(ccrit_d(c) for c in (d.get('Criteria') or [])),
+                                      cmparams_d(method, d.get('MethodParameters')))
